@@ -25,7 +25,8 @@ class C11(core.Prop):
                    "a sleep (or join time-out) keeps running while its actor is suspended and the actor wakes at max(end, resume) (the statement only "
                    "says that the actor makes no progress); an execution is frozen",
                    "an operation that completes at the very date a suspension starts may return at that date or at the resume date",
-                   "runs in which an actor sets two kill times are attributed to the known defect of Actor::set_kill_time (known/C11.json)"]
+                   "several kill times: the last one set in the future wins (semantics of the fix 6bf89374c4); a child that terminates while its creator "
+                   "is still applying daemon / kill time / auto-restart to it: the properties of its later incarnations are not asserted"]
 
     def strategy(self, tier):
         return lifecycle.c11_programs()
@@ -36,21 +37,8 @@ class C11(core.Prop):
         if log.wall_exceeded:
             raise core.Inconclusive()
         labels = set()
-        twice = any(sum(1 for op in a["ops"] if op[0] == "set_kill_time") + (1 if a.get("kill_time", -1) > 0 else 0) > 1
-                    for a in case["actors"] + case.get("templates", []))
         if not log.done:
-            sig = timing.crash_sig(log)
-            # a template child that can terminate in its first slice and has a property applied by its creator afterwards
-            instant = any((t.get("daemon") or t.get("kill_time", -1) > 0 or t.get("auto_restart")) and
-                          not any(op[0] in ("sleep", "exec", "join", "suspend_self") for op in t["ops"][:1])
-                          for t in case.get("templates", []))
-            if sig == "run-crashed:signal-11" and lifecycle.suspend_races_activity_start(log):
-                sig = lifecycle.UNSTARTED + ":" + sig
-            elif twice:
-                sig = lifecycle.KT2 + ":" + sig
-            elif instant:
-                sig = lifecycle.INSTANT + ":" + sig
-            oc.bad(sig, "the interpreter did not finish: " + log.crash_text())
+            oc.bad(timing.crash_sig(log), "the interpreter did not finish: " + log.crash_text())
             return oc
         lifecycle.check_c11(case, log, oc, labels)
         oc.labels = sorted(labels)
